@@ -168,6 +168,19 @@ func (x *Exec) intrinsic(fn *ssa.Function, args []Val) (Val, bool) {
 			}
 			return x.deepEq(x.goToVal(out), v), true
 		}
+		if sv.Op.Kind == "concat" {
+			// JSON text followed/preceded by concrete whitespace decodes to the same value
+			var rest []Str
+			for _, p := range sv.Op.Parts {
+				if cs, ok := p.concrete(); ok && strings.TrimSpace(cs) == "" {
+					continue
+				}
+				rest = append(rest, p)
+			}
+			if len(rest) == 1 {
+				return x.intrinsicCall("verifMarshalOf", []Val{rest[0], v})
+			}
+		}
 		switch sv.Op.Kind {
 		case "json.Marshal":
 			// json.Marshal's output decodes back to its argument (standard-library fact)
@@ -220,6 +233,18 @@ func (x *Exec) intrinsic(fn *ssa.Function, args []Val) (Val, bool) {
 		return nil, true
 	}
 	return nil, false
+}
+
+// intrinsicCall re-enters an intrinsic by name.
+func (x *Exec) intrinsicCall(name string, args []Val) (Val, bool) {
+	fn := x.P.harnessFunc(name)
+	if fn == nil && x.P.cli != nil {
+		fn = x.P.cli.Func(name)
+	}
+	if fn == nil {
+		panic(unsupported{"intrinsic " + name + " not declared"})
+	}
+	return x.intrinsic(fn, args)
 }
 
 func (x *Exec) catch(f func()) (res Val) {
